@@ -821,7 +821,12 @@ func trailerBytes(seed uint64, tr []TrailerRec) []byte {
 	r := core.NewRand(seed, "trailer")
 	var b []byte
 	for _, t := range tr {
-		b = append(b, echbox.Record(t.Type, 0x0303, core.Bytes(r, t.Len))...)
+		pl := core.Bytes(r, t.Len)
+		if t.Type == 21 && t.Len >= 2 && r.IntN(2) == 0 {
+			// a well-formed alert: level, description
+			pl = []byte{byte(1 + r.IntN(2)), []byte{0, 10, 40, 47, 50, 70, 80, 109, 112, 120}[r.IntN(10)]}
+		}
+		b = append(b, echbox.Record(t.Type, 0x0303, pl)...)
 	}
 	return b
 }
